@@ -134,10 +134,12 @@ def run(F, R, tier):
                     stores_in_err = any(x.get("k") in ("assign", "assignop") for a in err_arms for x in H.walk(a["body"]))
                     ok = err_ret and not stores_in_err and bool(ok_arms)
                     det = "Err arm yields Err(..): %s; stores in the Err arm: %s" % (err_ret, stores_in_err)
-                elif pa is not None and H.is_try(pa):
+                elif pa is not None and (H.is_try(pa) or (pa.get("k") == "call" and H.last(pa.get("callee") or "") == "branch" and H.is_try(par.get(id(pa)) or {}))):
                     ok, det = True, "propagated with `?` before the store"
-                elif pa is not None and pa.get("k") == "mcall" and pa["m"] in ("map_err",):
+                elif pa is not None and pa.get("k") == "mcall" and pa["m"] in ("map_err",) and pa.get("recv") is c:
                     gp = par.get(id(pa))
+                    if gp is not None and gp.get("k") == "call" and H.last(gp.get("callee") or "") == "branch":
+                        gp = par.get(id(gp))   # `e?` is match Try::branch(e) { .. }
                     ok = gp is not None and H.is_try(gp)
                     det = "map_err(..)? before the store" if ok else det
                 # nothing of the header is written before the parse succeeded
